@@ -22,7 +22,7 @@ EXPLANATION = ("Proved (SMT, all inputs, all stream lengths): time_notes yields,
                "equals the statement's 'inside the union of warp segments and no stop or delay on the beat', on every tick of every small configuration.")
 TRUSTED = [
     "callee contracts: TimingEngine.hittable / time_at are functions of (engine, beat, tag); NoteData.__iter__ yields a Note sequence",
-    "T-STD: bisect local-boundary contract; SM_inv for the engine's state list",
+    "T-STD: bisect local-boundary contract; heapq.merge order; SM_inv for the engine's state list assembled from the discharged steps of unit TimingEngine._retime_events by an induction argued outside the solver",
     "NamedTuple construction/equality as generated datatypes (fields, order and defaults read from the real classes)",
     "pyvc VC generator; z3/cvc5",
 ]
@@ -163,9 +163,9 @@ def replay_time_notes(note_dicts, opt_name, hittable):
                 command="list(time_notes(notes, timing_data, option)) with the warps above")
 
 
-from props.engine_common import Lookup, EngineVsStatement, CoalesceWarps
+from props.engine_common import Lookup, EngineVsStatement, CoalesceWarps, RetimeEvents
 
-UNITS = [TimeNotes(), Lookup("hittable"), CoalesceWarps()]
+UNITS = [TimeNotes(), Lookup("hittable"), CoalesceWarps(), RetimeEvents()]
 BOUNDED = [EngineVsStatement("hittable", k) for k in range(EngineVsStatement.PARTS)]
 
 
